@@ -24,7 +24,11 @@ func Store.Mutate
 func Store.Get
   ensures isnil(result_1) ==> result_0 != nil
 func Store.GetLast
+  modifies lastFound, lastKey8
   ensures isnil(result_1) ==> result_0 != nil
+  // (ghost bookkeeping of the answer, for C05)
+  assumes lastFound == isnil(result_1)
+  assumes isnil(result_1) && table == HistoryTable ==> lastKey8 == bytes(result_0.Key[0:8])
   // ASSUMED data invariant: every key of the history table is a 10-byte position (index, height)
   assumes isnil(result_1) && table == HistoryTable ==> len(result_0.Key) == 10
 func Store.GetRange
